@@ -41,7 +41,7 @@ class C15(vlib.Check):
             "workers, shuffled input lists, 1-2 inputs replaced by unreadable files; databases compared as multisets of named rows "
             "with the model's collection of the serial per-input results; interruption: the batch runs in a subprocess whose save "
             "is made to exit after the k-th completed output, for every k, then a plain re-run and an overwrite re-run, comparing "
-            "SHA-256 of pre-existing outputs. Non-trivial: >= 2 good inputs and a non-serial mode or a bad input or an interruption.")
+            "SHA-256 of pre-existing outputs; and in-process resumption after some output files, then the whole output directory, were removed. Non-trivial: >= 2 good inputs and a non-serial mode or a bad input or an interruption.")
     trusted_base = ["python_utilities.Parallelizer / concurrent.futures; the OS (files, processes, threads)"]
     assumptions = ["OS scheduling is sampled; a crash inside a write is outside the property; MPI mode cannot run here and is not claimed (partial by nature)"]
 
@@ -82,6 +82,7 @@ class C15(vlib.Check):
             files = rng.sample(refs, nfiles)
             o = {"bits": 1024, "level": 2, "first": 2, "counts": False}
             self.count("interrupt")
+            self.count("in-process-resume")
             yield {"t": "interrupt", "files": files, "bad": sorted(rng.sample(range(nfiles), rng.choice([0, 1]))), "opts": o,
                    "names": ["proto", "mixed", "plain"][k % 3],
                    "ks": list(range(0, nfiles + 1)) if self.tier == "thorough" else sorted(rng.sample(range(0, nfiles), 2))}
@@ -217,6 +218,29 @@ class C15(vlib.Check):
             if got_sets != want_sets:
                 return {"key": "outputs-not-one-per-input", "what": "%d good inputs (names %s) gave %d output files %s whose contents are not the per-input fingerprints" % (
                     len(per), [self._name(case, i) for i in range(len(paths)) if i not in case["bad"]], len(clean_files), sorted(clean_files))}
+            # the same process resumes a batch whose outputs were lost: first some files, then the whole output directory
+            # (a cleaned scratch area); every re-run without overwrite must complete exactly the missing outputs
+            victims = sorted(clean_files)[::2]
+            for f in victims:
+                os.remove(os.path.join(cdir, f))
+            kept = {f: sha(os.path.join(cdir, f)) for f in sorted(os.listdir(cdir))}
+            self._run(paths, o, "serial", 1, out_dir_base=clean)
+            for f, h in kept.items():
+                if sha(os.path.join(cdir, f)) != h:
+                    return {"key": "resume-touches-existing", "what": "in-process re-run without overwrite changed existing output %s" % f}
+            again = {f: [dump_fp(x) for x in fpm.loadz(os.path.join(cdir, f))] for f in sorted(os.listdir(cdir))}
+            if again != clean_files:
+                return {"key": "resume-incomplete:in-process:files-removed",
+                        "what": "after removing %d output files, a re-run in the same process restored %d of %d outputs" % (len(victims), len(again), len(clean_files))}
+            shutil.rmtree(cdir)
+            for mode, workers in (("serial", 1), ("threads", 2)):
+                self._run(paths, o, mode, workers, out_dir_base=clean)
+                again = {f: [dump_fp(x) for x in fpm.loadz(os.path.join(cdir, f))] for f in sorted(os.listdir(cdir))} if os.path.isdir(cdir) else {}
+                if again != clean_files:
+                    return {"key": "resume-incomplete:in-process:directory-removed",
+                            "what": "after the output directory was removed, a %s re-run in the same process wrote %d of %d outputs" % (mode, len(again), len(clean_files))}
+                if mode == "serial":
+                    shutil.rmtree(cdir)
             for k in case["ks"]:
                 base = os.path.join(d, "run%d_" % k)
                 env = dict(os.environ, PYTHONPATH=vlib.VERIF, C15_CRASH_AFTER=str(k))
